@@ -19,7 +19,7 @@
        changed) - monitored on the real solvers.
      * the analytic sub-solvers the steps are made of: solveQuadratic2DTriangle returns a point of the
        triangle for ALL inputs (snapping included) and moves it by <= 1e-12*maxSum when snapping;
-       solveQuadraticEdge returns a maximiser over its interval; solveQuadratic2DBox (repaired,
+       solveQuadraticEdge (repaired: degenerate test Q <= 0) returns a maximiser over its interval for every Q >= 0; solveQuadratic2DBox (repaired,
        /repo bc5f2886) stays in the box and never loses objective; the triangle step does not lose
        objective in the situations listed in C16_triangle_gain_nonneg_partial and DOES lose objective
        for a positive definite block with determinant <= 1e-12 (C16_triangle_gain_refuted: the
@@ -92,10 +92,10 @@ Theorem C16_triangle_snap_moves_little : forall (M : Q) (c : Q * Q), 0 <= M ->
 Proof. exact tri_snap_close. Qed.
 Print Assumptions C16_triangle_snap_moves_little.
 
-Theorem C16_edge_solver_optimal : forall a g Q L U : Q, L <= U -> (qthr <= Q \/ Q == 0) ->
+Theorem C16_edge_solver_optimal : forall a g Q L U : Q, L <= U -> 0 <= Q ->
   forall b, L <= b -> b <= U ->
   gain1 g Q (b - a) <= gain1 g Q (solve_edge qops a g Q L U - a).
-Proof. exact solve_edge_optimal. Qed.
+Proof. exact edge_optimal_any_start. Qed.
 Print Assumptions C16_edge_solver_optimal.
 
 (* full statement wanted: forall points of the triangle and PSD blocks, 0 <= gain.  FALSE for the code
@@ -106,8 +106,7 @@ Theorem C16_triangle_gain_nonneg_partial : forall ai aj gi gj Qii Qij Qjj M : Q,
   0 <= M ->
   (tri_is_free ai aj gi gj Qii Qij Qjj M -> 0 <= Qii) ->
   (tri_is_free ai aj gi gj Qii Qij Qjj M \/
-   ((qthr <= Qjj \/ Qjj == 0) /\ (qthr <= Qii \/ Qii == 0) /\
-    (qthr <= Qii + Qjj - 2 * Qij \/ Qii + Qjj - 2 * Qij == 0) /\
+   (0 <= Qjj /\ 0 <= Qii /\ 0 <= Qii + Qjj - 2 * Qij /\
     (onb M (ai, aj) \/ exists y, onb M y /\ 0 <= G y))) ->
   0 <= G r.
 Proof. exact tri_gain_nonneg_partial. Qed.
@@ -173,7 +172,7 @@ Example C16_simplex_hyp_sat : 0 < 1 /\ SInv 3 1 (mkmc (fun _ _ => 0) (fun _ => 0
 Proof. exact simplex_hyp_sat. Qed.
 Example C16_triangle_partial_free_sat : tri_is_free (1#1) (1#1) 1 1 1 0 1 10 /\ 0 <= 1.
 Proof. exact tri_partial_free_sat. Qed.
-Example C16_triangle_partial_boundary_sat : onb 10 (0, 1) /\ (qthr <= 1 \/ 1 == 0).
+Example C16_triangle_partial_boundary_sat : onb 10 (0, 1) /\ 0 <= 1.
 Proof. exact tri_partial_boundary_sat. Qed.
 Example C16_max_gain_2d_sat : 0 < 2 /\ 0 <= 2 /\ qthr * (2 * 2) < 2 * 2 - 1 * 1.
 Proof. exact max_gain_2d_opt_sat. Qed.
